@@ -19,12 +19,19 @@ RULE = ("op sequences (6-16 steps) over <=3 entities x <=3 attributes drawn from
         "del / state.delete / exist / getattr (name|snapshot) / names / re-inspection of captured snapshots / external "
         "async_set|async_remove, values str/int/float/bool/None/list/dict; environments with the head bound as local / "
         "global Python variable, entity names colliding with a service / function / entity-service method; a systematic "
-        "block enumerates every state.set argument combination on existing and missing entities; both decorator "
+        "block enumerates every state.set argument combination on existing and missing entities; augmented assignment "
+        "(d.n += str), a StateVal as attribute value, explicit new_attributes=None, a write repeated three times in a row "
+        "(p=0.12); boundary values in the pools ('', 'None', 'unknown', 'unavailable', ' on ', 200 chars, -0.5, 1000.0, {}, "
+        "[[]], nested dict; attribute names last_updated / last_reported / upper / split / format / _x, also as stored "
+        "keys) and three systematic boundary families per subsystem: 14 state values (write, read, write twice more, "
+        "+= '', state.get; incl. a 255-character string and 0/1/-1/0.0/1.0/2.5/True/False), 9 colliding attribute names "
+        "(read, exist, assign, read back, getattr, snapshot, set by keyword, del), 4 dotted-part counts (1-4) through "
+        "every entry point on missing and existing entities; both decorator "
         "subsystems.  Non-trivial = at least one step that writes; distinct by payload.")
 ASSUMPTIONS = [
     "Home Assistant's state machine behaves as a dictionary entity_id -> (str(state), attributes) (async_set/async_remove/get/async_entity_ids)",
-    "attribute and entity names are lower-case identifiers that are not attributes of python's str class",
-    "attribute values are compared by their JSON rendering; state values by str(); time-stamp fields only by type",
+    "entity names are lower-case identifiers (Home Assistant lower-cases / validates entity ids itself); the public attributes of python's str are the 47 names listed in the model (STR_ATTRS, compared with dir(str) by the harness)",
+    "attribute values are compared by their JSON rendering (a StateVal object kept as attribute value: as the string it is); state values by str(); time-stamp fields only by type",
     "string splitting of dotted names ('a.b.c'.split('.')) is abstracted to part lists (covered by these runs only)",
     "State.service2args reflects the registered services (rebuilt once at a quiescent point before the operations)",
     "no two distinct generated values are ==-equal in python (Home Assistant skips a write whose state and attributes "
@@ -43,9 +50,18 @@ FUNCTIONS = [["task", "sleep"], ["state", "get"]]          # dotted registered f
 # the one deviation that is still open (C16-F2); C16-F1/F3/F4 were repaired in /repo and are judged like anything else
 FINDING_SIGS = ["assign-stateval-replaces-attrs"]
 
-VALUES = ["on", "off", "", "12", 5, 7, -3, 1.5, True, False, None, [3, "x"], [], {"k": 4}, {"k": [8, 2], "m": None}, "None"]
+# boundary values: the strings HA / pyscript give a meaning to ('', 'None', 'unknown', 'unavailable'), blanks around a
+# value, a long string (the aug-assignment suffixes keep it under HA's 255 limit; exactly 255 is a systematic case),
+# numbers as int / float / bool (what string do they become), None / {} / [] / nested values for attributes
+VALUES = ["on", "off", "", "12", 5, 7, -3, 1.5, True, False, None, [3, "x"], [], {"k": 4}, {"k": [8, 2], "m": None}, "None",
+          "unknown", "unavailable", " on ", "y" * 200, -0.5, 1000.0, {}, [[]], {"d": {"e": {}}}]
 ENTS = [["pyscript", "e0"], ["pyscript", "e1"], ["sensor", "e2"], ["light", "e3"], ["pyscript", "step"], ["task", "sleep"]]
-ATTRS = ["a0", "a1", "a2", "entity_id", "svcm", "as_int", "zz", "last_changed", "context"]
+# attribute names: three ordinary ones, then names that collide with the virtual fields, an entity service, a helper
+# method of StateVal, methods of str, a private-looking name, a missing one
+ATTRS = ["a0", "a1", "a2", "entity_id", "svcm", "as_int", "zz", "last_changed", "context", "last_updated", "last_reported",
+         "upper", "split", "format", "_x"]
+KEY_NAMES = ["entity_id", "last_changed", "last_reported", "upper", "format", "_x", "as_int", "context"]   # as stored keys
+STR_ATTRS = [a for a in dir(str) if not a.startswith("_")]
 
 
 def _jd(o):
@@ -69,6 +85,8 @@ def val_sx(v):
 # ------------------------------------------------------------------ generation
 def gen_attrs(rng, n=None):
     ks = rng.sample(["a0", "a1", "a2"], rng.randrange(0, 4) if n is None else n)
+    if ks and rng.random() < 0.2:
+        ks[0] = rng.choice(KEY_NAMES)          # a stored attribute named like a virtual field / a method / `_x`
     return [[k, rng.choice(VALUES)] for k in ks]
 
 
@@ -110,8 +128,14 @@ class Gen:
         e = self.ent()
         k = r.choices(
             ["load2", "load3", "get", "store2", "store3", "set", "setattr", "del", "delete", "exist", "getattr",
-             "getattrsnap", "names", "peek", "extset", "extremove"],
-            [10, 8, 6, 10, 8, 14, 4, 5, 5, 6, 5, 2, 3, 4, 6, 3])[0]
+             "getattrsnap", "names", "peek", "extset", "extremove", "aug"],
+            [10, 8, 6, 10, 8, 14, 4, 5, 5, 6, 5, 2, 3, 4, 6, 3, 3])[0]
+        if k == "aug":
+            if self.pyhead(e):
+                e = next((x for x in self.ents if not self.pyhead(x)), None)
+                if e is None:
+                    return {"k": "names", "dom": None}
+            return {"k": "aug", "parts": e, "sfx": r.choice(["x", "", " ", "0"])}
         if k == "load2":
             if not self.pyhead(e) and not self.collides(e):
                 self.nsnaps += 1 if tuple(e) in self.exists else 0
@@ -136,7 +160,7 @@ class Gen:
             at = self.attr(wide=False)
             if r.random() < 0.2:
                 at = r.choice(["value", "var_name", "cls", "new_attributes"])   # names of State.set's parameters
-            a = self.arg(allow_snap=False)
+            a = self.arg(allow_snap=True)          # a StateVal as attribute value is stored as the string it is
             return {"k": "store", "parts": e + [at], "arg": a}
         if k == "set":
             a = self.arg(allow_snap=True)
@@ -152,7 +176,7 @@ class Gen:
             if len(parts) == 2:
                 self.exists.add(tuple(e))
             return {"k": "set", "parts": parts, "arg": a, "na": na, "kw": kw,
-                    "style": r.randrange(3)}
+                    "style": r.randrange(4)}
         if k == "setattr":
             at = self.attr(wide=False)
             if r.random() < 0.2:
@@ -215,7 +239,11 @@ def random_case(rng, idx, allow_findings, nops=None):
             ops.append({"k": "extset", "ent": e, "value": str(rng.choice(["on", "3", "x"])), "attrs": gen_attrs(rng)})
     n = nops or rng.randrange(6, 17)
     while len(ops) < n:
-        ops.append(g.op())
+        o = g.op()
+        ops.append(o)
+        # the third and later write in a row with an identical value (Home Assistant skips equal writes)
+        if o["k"] in ("store", "set", "setattr", "extset") and rng.random() < 0.12:
+            ops += [dict(o), dict(o)]
     return {"env": env, "ops": ops, "legacy": bool(idx % 2)}
 
 
@@ -237,6 +265,48 @@ def systematic_cases():
                         ops += [{"k": "getattr", "parts": tgt}, {"k": "load", "parts": tgt}, {"k": "peek", "i": 0}]
                         out.append({"env": {"globals": [], "locals": []}, "ops": ops, "legacy": legacy,
                                     "sys": f"set:{val}:{'none' if na is None else len(na)}:{len(kw)}:{exists}"})
+    return out
+
+
+def boundary_cases():
+    """one short scenario per boundary value: what string does it become, is it read back unchanged, are the virtual
+    fields still the virtual fields"""
+    out = []
+    e0 = ["pyscript", "e0"]
+    for legacy in (False, True):
+        for v in ("", "None", "unknown", "unavailable", " x ", "y" * 255, 0, 1, -1, 0.0, 1.0, 2.5, True, False):
+            out.append({"env": {"globals": [], "locals": []}, "legacy": legacy, "sys": "bv-value",
+                        "ops": [{"k": "store", "parts": e0, "arg": ["plain", v]}, {"k": "load", "parts": e0},
+                                {"k": "store", "parts": e0, "arg": ["plain", v]}, {"k": "store", "parts": e0, "arg": ["plain", v]},
+                                {"k": "aug", "parts": e0, "sfx": ""}, {"k": "get", "parts": e0}]})
+        for a in ("entity_id", "last_changed", "last_updated", "last_reported", "upper", "split", "format", "_x", "as_int"):
+            out.append({"env": {"globals": [], "locals": []}, "legacy": legacy, "sys": "bv-attrname",
+                        "ops": [{"k": "extset", "ent": e0, "value": "v", "attrs": []},
+                                {"k": "load", "parts": e0 + [a]}, {"k": "exist", "parts": e0 + [a]},
+                                {"k": "store", "parts": e0 + [a], "arg": ["plain", 7]},
+                                {"k": "load", "parts": e0 + [a]}, {"k": "get", "parts": e0 + [a]}, {"k": "exist", "parts": e0 + [a]},
+                                {"k": "getattr", "parts": e0}, {"k": "load", "parts": e0}, {"k": "getattrsnap", "i": 0},
+                                {"k": "set", "parts": ["pyscript", "e1"], "arg": "none", "na": None, "kw": [[a, None]], "style": 0},
+                                {"k": "del", "parts": e0 + [a]}, {"k": "load", "parts": e0 + [a]}, {"k": "peek", "i": 0}]})
+        for parts in (["pyscript"], e0, e0 + ["a0"], e0 + ["a0", "b"]):
+            out.append({"env": {"globals": [], "locals": []}, "legacy": legacy, "sys": "bv-parts",
+                        "ops": [{"k": kk, "parts": parts} for kk in ("get", "exist", "getattr", "delete")] +
+                               [{"k": "set", "parts": parts, "arg": ["plain", 1], "na": None, "kw": [], "style": 0},
+                                {"k": "setattr", "parts": parts, "val": 2}] +
+                               [{"k": kk, "parts": parts} for kk in ("get", "exist", "getattr", "delete", "delete")] +
+                               [{"k": "names", "dom": "pyscript"}]})
+        # a StateVal as value and as attribute value; the snapshot after its entity changed and after it was deleted
+        e1 = ["pyscript", "e1"]
+        out.append({"env": {"globals": [], "locals": []}, "legacy": legacy, "sys": "bv-stateval",
+                    "ops": [{"k": "set", "parts": e0, "arg": ["plain", "v"], "na": None, "kw": [["a0", 1]], "style": 0},
+                            {"k": "load", "parts": e0}, {"k": "store", "parts": e1, "arg": ["plain", "w"]},
+                            {"k": "store", "parts": e1 + ["a1"], "arg": ["snap", 0]},
+                            {"k": "load", "parts": e1 + ["a1"]}, {"k": "get", "parts": e1 + ["a1"]}, {"k": "getattr", "parts": e1},
+                            {"k": "store", "parts": e0, "arg": ["plain", "changed"]}, {"k": "peek", "i": 0}, {"k": "getattrsnap", "i": 0},
+                            {"k": "load", "parts": e1 + ["a1"]},
+                            {"k": "delete", "parts": e0}, {"k": "peek", "i": 0}, {"k": "getattrsnap", "i": 0},
+                            {"k": "store", "parts": e0, "arg": ["snap", 0]}, {"k": "load", "parts": e0}, {"k": "getattr", "parts": e0},
+                            {"k": "set", "parts": e1, "arg": ["snap", 0], "na": None, "kw": [], "style": 0}, {"k": "getattr", "parts": e1}]})
     return out
 
 
@@ -271,19 +341,29 @@ def finding_cases():
     return out
 
 
+def model_str_attrs():
+    """the list of str's public attributes written into the model (lean/PsModel/Model/C16.lean, STR_ATTRS)"""
+    src = (common.LEAN / "PsModel" / "Model" / "C16.lean").read_text()
+    m = re.search(r"def STR_ATTRS : List String :=\s*\[([^\]]*)\]", src)
+    return re.findall(r'"([^"]+)"', m.group(1)) if m else []
+
+
 def gen_cases(rng, tier, search):
-    n = 520 if tier == "quick" else 8000
+    if sorted(model_str_attrs()) != sorted(STR_ATTRS):
+        raise RuntimeError("the model's STR_ATTRS is not dir(str) of this python: "
+                           f"{sorted(set(model_str_attrs()) ^ set(STR_ATTRS))}")
+    n = 420 if tier == "quick" else 8000
     if search:
         n *= 3
     payloads = []
     if not search:
-        payloads += systematic_cases() + finding_cases()
+        payloads += systematic_cases() + finding_cases() + boundary_cases()
     for i in range(n):
         payloads.append(random_case(rng, i, allow_findings=(i % 8 == 7)))
     cases = []
     for p in payloads:
         c = Case(p, case_line(p), tags=tags_of(p))
-        c.nontrivial = any(o["k"] in ("store", "set", "setattr", "del", "delete", "extset", "extremove") for o in p["ops"])
+        c.nontrivial = any(o["k"] in ("store", "set", "setattr", "del", "delete", "extset", "extremove", "aug") for o in p["ops"])
         cases.append(c)
     return cases
 
@@ -314,6 +394,8 @@ def op_sx(o):
     k = o["k"]
     if k in ("load", "del", "get", "delete", "exist", "getattr"):
         return [k, o["parts"]]
+    if k == "aug":
+        return ["aug", o["parts"], o["sfx"]]
     if k == "store":
         return ["store", o["parts"], arg_sx(o["arg"])]
     if k == "set":
@@ -354,6 +436,8 @@ def op_src(o):
     k = o["k"]
     if k == "load":
         return f"return {dotted(o['parts'])}"
+    if k == "aug":
+        return f"{dotted(o['parts'])} += {o['sfx']!r}"
     if k == "store":
         return f"{dotted(o['parts'])} = {arg_src(o['arg'])}"
     if k == "del":
@@ -371,10 +455,14 @@ def op_src(o):
                     args.append(na)
             elif na is not None:
                 args.append(f"new_attributes={na}")
+            elif style == 3:
+                args.append("new_attributes=None")        # explicit None = omitted
         else:
             args.append(arg_src(o["arg"]) if style != 2 else "value=" + arg_src(o["arg"]))
             if na is not None:
                 args.append(na if style == 0 else f"new_attributes={na}")
+            elif style == 3:
+                args.append("new_attributes=None")
         args += [f"{k}={v!r}" for k, v in o["kw"]]
         return f"state.set({', '.join(args)})"
     if k == "setattr":
@@ -465,7 +553,7 @@ def refine(o, raw):
     if not (isinstance(raw, list) and raw and raw[0] == "val"):
         return raw
     v = json.loads(raw[1])
-    if k in ("store", "del", "set", "setattr", "delete"):
+    if k in ("store", "del", "set", "setattr", "delete", "aug"):
         return "unit"
     if k == "exist":
         return ["bool", 1 if v else 0]
@@ -535,7 +623,12 @@ def run_batch(batch):
                     else:
                         raw = recs[0][3]
                         if o["k"] in ("load", "get") and isinstance(raw, StateVal):
-                            captured.append(raw)
+                            if len(o["parts"]) == 3:
+                                # an ATTRIBUTE whose stored value is a StateVal object (d.n.a = other_state_val keeps
+                                # the object in hass.states): judged as the string it is
+                                raw = str(raw)
+                            else:
+                                captured.append(raw)
                         out = refine(o, canon_out(raw, list(nslog)))
                 steps.append([out, snapshot_store(env.hass)])
             # immutability: every captured snapshot still shows what it showed when captured
@@ -656,7 +749,7 @@ class Oracle:
         v = self.view(e, st[e])
         if a in v:
             return ["attr", v[a]]
-        return "callable" if a in CALLABLE_ATTRS else ["exc", "AttributeError"]
+        return "callable" if a in CALLABLE_ATTRS or a in STR_ATTRS else ["exc", "AttributeError"]
 
     @staticmethod
     def set_rule(st, e, value, na, kw):
@@ -702,8 +795,16 @@ class Oracle:
             e = dotted(parts[:2])
             if e not in st:
                 return ["exc", "NameError"], st
-            v = None if a == "none" else a[1]
+            v = None if a == "none" else (a[1] if a[0] == "plain" else snaps[a[1]][1])   # a StateVal is its string
             return "unit", self.set_rule(st, e, None, None, [[parts[2], v]])
+        if k == "aug":
+            parts = o["parts"]
+            if parts in FUNCTIONS or parts in SERVICES:
+                return ["exc", "TypeError"], st              # the name is a function: function += str
+            e = dotted(parts)
+            if e not in st:
+                return ["exc", "NameError"], st
+            return "unit", self.set_rule(st, e, st[e][0] + o["sfx"], None, [])
         if k == "setattr":
             parts = o["parts"]
             if len(parts) != 3 or dotted(parts[:2]) not in st:
